@@ -23,6 +23,8 @@ CLAIMED = {
          "instants exactly on a window edge are skipped; limits are checked for connections in their relay phase; outages are 'connection refused' (net.Dial has no timeout, a blackhole would mean the OS default)"),
  "C12": ("§6 C12", "Seeded simulation of the proxy_protocol matcher/handler and of the proxy handler's header emission (and their composition through a second simulated layer4 server), with headers from an independent encoder split/coalesced arbitrarily, allow lists, aborts mid-header, and an independent decoder at the upstream; payload integrity by the C01 oracle, addresses seen by handlers / ip matchers / placeholders, exact single header of the configured version with the effective addresses followed by the stream.",
          "v1 UNKNOWN and v2 LOCAL/UNSPEC headers declare no addresses: what the third-party library reports then is not judged; v2 headers with TLVs are rejected by the library (connection closed), which the oracle accepts"),
+ "C16": ("§6 C16", "Seeded simulation of the real SOCKS5 handler over go-socks5 (instrumented copy: its dial, UDP listen and resolver calls go to the simulated network) with drawn command subsets and credential maps and scripted client negotiations (all method lists, credentials, command codes, address types, versions, truncations, segmentations); a small RFC 1928/1929 model decides permission and the census of outbound dials / UDP binds is compared with it; permitted CONNECT relays byte-exactly.",
+         "name resolution through the (simulated) resolver is not counted as an outbound connection; UDP ASSOCIATE relaying itself is not exercised (the simulated ListenUDP records the bind and refuses)"),
 }
 NA = {
  "C07": "pure function of the ClientHello bytes (differential input testing against crypto/tls): no schedule, clock, fault or interleaving for a simulator to decide; its one schedule-dependent clause is exercised under C06",
@@ -30,7 +32,7 @@ NA = {
  "C15": "Caddyfile->JSON adaptation and JSON round trip are pure single-threaded functions of the configuration text",
  "C18": "FromBytes/ToBytes inverse laws are pure functions of byte strings",
 }
-PENDING = ["C04","C06","C08","C16"]
+PENDING = ["C04","C06","C08"]
 m = {
  "version": 1,
  "setup_cmd": "./check build",
